@@ -60,6 +60,10 @@ def gen_cases(tier, seed):
             cases.append({"cfg": d, "subset_kind": kind, "sseed": rnd.randrange(2 ** 32),
                           "oseed": rnd.randrange(2 ** 32), "encoding": "raw",
                           "max_runs": 8 if tier == "quick" else 24})
+    for k in range(n // 8):
+        cases.append({"cfg": shardlib.gen_config_large(rnd), "subset_kind": "large",
+                      "sseed": rnd.randrange(2 ** 32), "oseed": rnd.randrange(2 ** 32),
+                      "encoding": "raw", "max_runs": 6 if tier == "quick" else 12})
     for k in range(n):
         cfg = shardlib.gen_config(rnd, tier)
         enc = "raw"
@@ -115,9 +119,13 @@ def run_case(case):
     from neuroglancer_scripts import precomputed_io, sharded_file_accessor
     cfg = case["cfg"]
     rnd = random.Random(case["sseed"])
-    kind, subset = shardlib.gen_subset(cfg, rnd, case["subset_kind"])
+    if cfg.get("large"):
+        kind, subset = "large", shardlib.gen_subset_large(cfg, rnd)
+    else:
+        kind, subset = shardlib.gen_subset(cfg, rnd, case["subset_kind"])
     orders, exhaustive = _orders(cfg, subset, random.Random(case["oseed"]), case["max_runs"])
-    prof = shardlib.gap_profile(cfg, subset)
+    prof = shardlib.gap_profile(cfg, subset) if not cfg.get("large") else {
+        "start": 0, "middle": 0, "end": 0}
     shared = any(len(g) >= 2 for g in shardlib.minishard_groups(cfg, subset).values())
     obs = {"writer_runs": 0, "store_chunk_events": 0, "fetch_checks": 0,
            "never_stored_probes": 0, "never_stored_outcomes": {},
@@ -125,7 +133,8 @@ def run_case(case):
            "gap_start": int(prof["start"] > 0), "gap_middle": int(prof["middle"] > 0),
            "gap_end": int(prof["end"] > 0), "strategies": {},
            "bytearray_payloads": int(case["encoding"] == "compressed_segmentation"),
-           "preshift_ge_1_with_shared_minishard": int(cfg["preshift_bits"] >= 1 and shared)}
+           "preshift_ge_1_with_shared_minishard": int(cfg["preshift_bits"] >= 1 and shared),
+           "identifiers_ge_2_32": int(max(shardlib.cmc_of(cfg, p) for p in subset) >= 2 ** 32)}
     ctx = (f"grid {cfg['grid']} chunk {cfg['chunk']} bits(m,s,p)=({cfg['minishard_bits']},"
            f"{cfg['shard_bits']},{cfg['preshift_bits']}) enc(index,data)=("
            f"{cfg['minishard_index_encoding']},{cfg['data_encoding']}) {case['encoding']} "
@@ -208,7 +217,12 @@ def run_case(case):
                         v.append({"kind": "decoded-chunk-differs",
                                   "detail": f"{ctx}: coords {coords}"})
                         break
-                missing = [p for p in shardlib.all_positions(cfg) if p not in set(subset)]
+                if cfg.get("large"):
+                    r2 = random.Random(case["oseed"])
+                    missing = [tuple(r2.randrange(g) for g in cfg["grid"]) for _ in range(12)]
+                    missing = [p for p in missing if p not in set(subset)]
+                else:
+                    missing = [p for p in shardlib.all_positions(cfg) if p not in set(subset)]
                 random.Random(case["oseed"]).shuffle(missing)
                 for pos in missing[:12]:
                     coords = shardlib.coords_of(cfg, pos)
@@ -257,4 +271,5 @@ def gates(obs, tier):
         "never_stored_positions_probed": obs.get("never_stored_probes", 0) > 100,
         "bytearray_payloads": obs.get("bytearray_payloads", 0) > 0,
         "preshift_with_shared_minishard": obs.get("preshift_ge_1_with_shared_minishard", 0) > 0,
+        "identifiers_beyond_2_32": obs.get("identifiers_ge_2_32", 0) > 0,
     }
